@@ -10,7 +10,7 @@ OPS = ["jws_sign_compact", "jws_verify_compact", "jws_sign_json", "jws_verify_js
 def plan(tier):
     q = tier == "quick"
     T = 300 if q else 1500
-    specs = [("frame", [(o,) for o in range(12)]), ("two_ops", [(o,) for o in (range(12) if not q else (1, 5, 7, 10))])]
+    specs = [("frame", [(o,) for o in range(12)]), ("two_ops", [(o,) for o in (range(12) if not q else (5, 10))])]
     path, names = gen.specialise(BASE, specs, "c20_gen.py")
     conds = [Cond(path, n, "main", T, "%s for operation %s" % (n.split("__")[0], OPS[int(n.split("__")[1])])) for n in names]
     conds.append(Cond(BASE, "witness", "witness", 120))
